@@ -274,7 +274,13 @@ def _shapes(run, M):
                 break
         if found is None:
             # constructors of the operators: the comprehension sits in an assignment evaluated before super().__init__
-            for n in ast.walk(f.node):
+            nodes_ = [f.node]
+            if f.cls is not None:     # helper methods the constructor calls on self (shared constructor code factored out)
+                for c_ in ast.walk(f.node):
+                    if isinstance(c_, ast.Call) and isinstance(c_.func, ast.Attribute) and isinstance(c_.func.value, ast.Name) and c_.func.value.id == "self" \
+                            and c_.func.attr in f.cls.methods and f.cls.methods[c_.func.attr] is not f:
+                        nodes_.append(f.cls.methods[c_.func.attr].node)
+            for n in [x_ for nd_ in nodes_ for x_ in ast.walk(nd_)]:
                 if isinstance(n, (ast.ListComp, ast.GeneratorExp)) and any(isinstance(c, ast.Call) and isinstance(c.func, ast.Name) and c.func.id == "zip"
                                                                             and any(isinstance(a_, ast.Name) and a_.id == "blk_strides" for a_ in c.args) for c in ast.walk(n)):
                     found = VN(M, f).ev(n, State({}))
